@@ -689,6 +689,14 @@ pub fn judge_group(b: &[u8], c: &GroupCase) -> GroupWalk {
                 && u32at(mobn, r + 8) == n.first_face as u32
                 && u32at(mobn, r + 12) == n.dist
                 && (n.axis > 2 || (u16at(mobn, r) & 3) == n.axis as u16);
+            // a node without children is a leaf (CAaBspNode flag 0x4), whether or not it references faces
+            if ok && n.children == [-1, -1] && u16at(mobn, r) & 0x4 == 0 {
+                w.fails.push(Fail::new(
+                    "group-mobn-childless-node-not-marked-as-leaf",
+                    format!("BSP node {i} has no children and {} faces; flags {:#x} lack the leaf bit 0x4", n.num_faces, u16at(mobn, r)),
+                ));
+                break;
+            }
             if !ok {
                 w.fails.push(Fail::new(
                     "group-mobn-record-layout-differs-from-format",
